@@ -181,7 +181,7 @@ def run(tier, seed, started):
     c = res.counters
     if c.get('executions', 0) < 1000 or not c.get('executions_with_confirming_block') or \
             len(res.sets.get('mempool_states', ())) < 56:
-        raise common.Broken(f'vacuous C08 run: {c}')
+        common.vacuous(PROP, res, f'vacuous C08 run: {c}')
     coverage = {
         'evaluations': c['executions'],
         'distinct_nontrivial': len(res.sets['mempool_states']),
